@@ -22,6 +22,7 @@ func genConfig(job *simkit.Job, rng *simkit.RNG, idx int64) (Config, []Action) {
 	if job.Property == "C02" {
 		wIns = 20 // the operator's input is what this profile is about
 	}
+	cfg.PayloadSize = genPayloadSize(rng, job.Property == "C02")
 	mode := rng.Pick([]int{70, 18, 12, wIns}) // timing | lock-order template | lock-order random | insert-chain template
 	if job.Mode == "selftest" && mode != 0 && rng.Chance(1, 2) {
 		mode = 0
@@ -66,6 +67,34 @@ func genConfig(job *simkit.Job, rng *simkit.RNG, idx int64) (Config, []Action) {
 		}
 	}
 	return cfg, nil
+}
+
+// genPayloadSize: how much the Ctrl+I source gives in this run.  Mostly the
+// short text; otherwise sizes around powers of two (where something that
+// passes an insert on in pieces of a fixed size would cut it), about 100 000
+// bytes and, rarely because of what it costs, about 1 MiB.
+func genPayloadSize(rng *simkit.RNG, inputProfile bool) int {
+	w := []int{800, 50, 12, 30, 40, 30, 30, 8}
+	if inputProfile {
+		w = []int{500, 80, 40, 80, 120, 90, 75, 15}
+	}
+	switch rng.Pick(w) {
+	case 1:
+		return rng.Range(16, 8192)
+	case 2:
+		return 32<<10 - 1
+	case 3:
+		return 32 << 10
+	case 4:
+		return 32<<10 + 1
+	case 5:
+		return 64<<10 + 1
+	case 6:
+		return rng.Range(90000, 110000)
+	case 7:
+		return 1<<20 + rng.Range(-1, 1)
+	}
+	return 0
 }
 
 // genInsertChain: things entered one after the other while an insert entered
